@@ -396,6 +396,11 @@ pub fn run(args: &Args) {
                 {"op": "tokenize", "text": "あ".repeat(20000), "mode": null, "out": true}, {"op": "tokenize", "text": "東京都", "mode": null, "out": true}]}),
             json!({"mode": "A", "fields": ["dictionary_form"], "projection": "dictionary", "ops": [{"op": "tokenize", "text": "👍🏻é東京都に行った", "mode": null, "out": false}]}),
         ];
+        // texts that are not ASCII but whose normalised form is (offsets are in code points of the ORIGINAL)
+        for t in ["ＡＢＣ", "ｓｕｄａｃｈｉ ２０２１", "①②", "Ａ", "ＡＢＣ東京都", "㍿ＡＢ"] {
+            v.push(json!({"mode": "C", "fields": null, "projection": null, "ops": [
+                {"op": "tokenize", "text": t, "mode": null, "out": false}, {"op": "tokenize", "text": t, "mode": "A", "out": true}]}));
+        }
         // directed: every creation mode x small field requests (with and without the split lists) x every per-call override,
         // the override being the FIRST call of the tokenizer, then a default call, then the override again
         for m0 in ["A", "B", "C"] {
@@ -538,6 +543,12 @@ pub fn run(args: &Args) {
             ("東京都\r".as_bytes().to_vec(), "C", true, false, "no"),
             ("東京都\r".as_bytes().to_vec(), "C", false, false, "yes"),
             (b"a\r\r\nb\r".to_vec(), "C", true, false, "no"),
+            // lines whose only sentence end is one of the rarer kinds (three or more middle dots, repeated line-break tags)
+            ("京都に行った・・・東京都に行った\n".as_bytes().to_vec(), "C", false, false, "yes"),
+            ("京都に行った・・・・東京都に行った\n".as_bytes().to_vec(), "C", true, false, "yes"),
+            ("京都に行った<br><br>東京都に行った\n".as_bytes().to_vec(), "C", false, false, "yes"),
+            ("京都<BR><BR><BR>東京都\n京都・・東京都\n".as_bytes().to_vec(), "A", true, false, "yes"),
+            ("京都に行った・・・東京都に行った\n京都<br><br>東京\n".as_bytes().to_vec(), "C", false, true, "only"),
         ];
         // directed: what the path-rewrite plugins join (numerals, katakana runs) must come out the same in every output format
         for t in ["123円\n", "1,000.5円に2024年\n", "アイアイウ\n", "東京都に12.5行った。京都に3,000行った\n", "二千五百万と六三四\n"] {
